@@ -915,6 +915,165 @@ def check_whole_outputs(chk, tier):
     chk.extra['files_compiled'] = nc
 
 
+# ---- R09.9 ----------------------------------------------------------------------------------------
+
+_GETOPT_DRIVER = """
+#include "getopt_impl.h"
+int w2c2_verif_drive(int argc, char **argv, const char *ostr, int *outc, char **outarg, int *outind) {
+    int n = 0, c;
+    while ((c = getopt(argc, argv, ostr)) != -1) {
+        outc[n] = c; outarg[n] = optarg; outind[n] = optind; n++;
+        if (n >= 30) break;
+    }
+    outind[n] = optind;
+    return n;
+}
+"""
+
+
+def posix_getopt(argv, ostr):
+    """reference (POSIX XBD 12.2 / getopt()): sequence of (letter or '?', argument or None) and the final optind"""
+    out = []
+    i = 1
+    while i < len(argv):
+        a = argv[i]
+        if len(a) < 2 or a[0] != '-':
+            break
+        if a == '--':
+            i += 1
+            break
+        k = 1
+        nxt = i + 1
+        while k < len(a):
+            ch = a[k]
+            k += 1
+            pos = ostr.find(ch) if ch != ':' else -1
+            if pos < 0:
+                out.append(('?', None))
+                continue
+            if pos + 1 < len(ostr) and ostr[pos + 1] == ':':
+                if k < len(a):
+                    out.append((ch, a[k:]))
+                elif nxt < len(argv):
+                    out.append((ch, argv[nxt]))
+                    nxt += 1
+                else:
+                    out.append(('?', None))
+                k = len(a)
+            else:
+                out.append((ch, None))
+        i = nxt
+    return out, i
+
+
+def check_bundled_getopt(chk, tier):
+    """R09.9: the option combination the user wrote is the option combination main() sees, whichever getopt the build uses: the bundled
+    getopt (builds without <getopt.h>) is partially evaluated with main's option string on every command line of up to 3 (thorough: 4)
+    argument words drawn from clustered flags, attached and detached option arguments, "--", unknown letters and operands; the
+    sequence of (option, argument) results and the final optind must equal what POSIX specifies for getopt - in particular "-pm" is
+    "-p -m" and "-f2" is "-f 2" """
+    import itertools
+    mtu = astdb.dump_ast(astdb.src('w2c2/main.c'))
+    strs = []
+    for n in walk(mtu.root):
+        if n.get('kind') == 'VarDecl' and n.get('name') == 'optString':
+            for s_ in walk(n):
+                if s_.get('kind') == 'StringLiteral':
+                    strs.append(astdb.c_unescape(s_['value']))
+    mainf = mtu.functions.get('main')
+    chk.require(mainf is not None, 'anchor main not found in main.c')
+    gcalls = [c for c in walk(astdb.fn_body(mainf)) if c.get('kind') == 'CallExpr' and astdb.callee_name(c) == 'getopt']
+    chk.require(len(gcalls) == 1 and strs, 'main() calls getopt %d times; option string literal(s) %r' % (len(gcalls), strs))
+    src = astdb.src('w2c2/main.c')
+    with open(src) as f:
+        uses_bundled = 'getopt_impl.h' in f.read()
+    if not uses_bundled:
+        chk.ok('R09.9', 'no-bundled-getopt', 'main.c does not include a bundled getopt')
+        return
+    import os
+    tu = astdb.dump_ast(os.path.join(os.path.dirname(src), 'verif_getopt_driver.c'), flags=['-std=gnu89', '-I' + os.path.dirname(src)],
+                        text=_GETOPT_DRIVER)
+    chk.unit(tu)
+    chk.require('getopt' in tu.functions and astdb.fn_body(tu.functions['getopt']) is not None, 'bundled getopt has no body')
+    chk.fn('getopt')
+    ostr = max(strs, key=len)
+    flags = [c for i_, c in enumerate(ostr) if c != ':' and not (i_ + 1 < len(ostr) and ostr[i_ + 1] == ':')]
+    argopts = [c for i_, c in enumerate(ostr) if c != ':' and i_ + 1 < len(ostr) and ostr[i_ + 1] == ':']
+    chk.require(len(flags) >= 3 and len(argopts) >= 2, 'option string %r: %d flags, %d options with argument' % (ostr, len(flags), len(argopts)))
+    f1, f2, f3 = flags[0], flags[1], flags[2]
+    a1, a2 = argopts[0], argopts[1]
+    words = ['-' + f1, '-' + f2, '-' + f1 + f2, '-' + f2 + f1, '-' + f1 + f2 + f3, '-' + a1 + '7', '-' + a1, '-' + f1 + a1 + '7', '-' + f1 + a1,
+             '-' + a2, '--', '-', 'in.wasm', '-Z', '-' + f1 + 'Z' + f2, '7']
+    maxn = 4 if tier == 'thorough' else 3
+    if tier != 'thorough':
+        words = [w for w in words if w not in ('-' + f2 + f1, '-' + a2)]
+
+    def cstr(t):
+        return Ptr([ord(c) for c in t] + [0], 0)
+
+    def strchr(interp, args, node):
+        p_, c_ = args[0], args[1]
+        if not isinstance(p_, Ptr) or not isinstance(c_, int):
+            raise pe.PEError('strchr(%r, %r)' % (p_, c_))
+        k = p_.k
+        while True:
+            if p_.c[k] == (c_ & 0xff):
+                return Ptr(p_.c, k)
+            if p_.c[k] == 0:
+                return 0
+            k += 1
+    it = pe.Interp([tu], {'strchr': strchr, '__builtin_strchr': strchr, 'printf': lambda i, a, n: 0})
+    it.program_start = True
+    n = 0
+    bad = []
+    for ln in range(0, maxn + 1):
+        for combo in itertools.product(words, repeat=ln):
+            argv = ['w2c2'] + list(combo)
+            want, wind = posix_getopt(argv, ostr)
+            ptrs = [cstr(a) for a in argv]
+
+            def setup(ptrs=ptrs, argv=argv):
+                outc = [None] * 32
+                outarg = [None] * 32
+                outind = [None] * 32
+                st = dict(outc=outc, outarg=outarg, outind=outind)
+                return ('w2c2_verif_drive', [len(argv), Ptr(ptrs + [0], 0), cstr(ostr), Ptr(outc, 0), Ptr(outarg, 0), Ptr(outind, 0)], st)
+            try:
+                paths = [p_ for p_ in it.explore(setup)]
+            except (pe.PEError, IndexError) as e:
+                raise AnalysisBroken('bundled getopt on %r: %s' % (argv, e))
+            if len(paths) != 1 or paths[0].aborted or not isinstance(paths[0].ret, int):
+                raise AnalysisBroken('bundled getopt on %r: %d paths, %r' % (argv, len(paths), paths[0].aborted))
+            st = paths[0].state
+            k = paths[0].ret
+            got = []
+            for j in range(k):
+                c_ = st['outc'][j]
+                a_ = st['outarg'][j]
+                if isinstance(a_, Ptr):
+                    t = []
+                    q = a_.k
+                    while a_.c[q] != 0:
+                        t.append(chr(a_.c[q]))
+                        q += 1
+                    a_ = ''.join(t)
+                elif a_ in (0, None):
+                    a_ = None
+                got.append((chr(c_) if isinstance(c_, int) else repr(c_), a_ if chr(c_) != '?' else None))
+            gind = st['outind'][k]
+            n += 1
+            if (got, gind) != (want, wind) and len(bad) < 5:
+                bad.append('command line %r: bundled getopt yields %r and leaves optind=%r; POSIX getopt (the system one the default build uses) '
+                           'yields %r, optind=%d' % (' '.join(argv[1:]), got, gind, want, wind))
+    chk.require(n >= 1000, 'only %d command lines evaluated' % n)
+    chk.expect(not bad, 'R09.9', 'bundled-getopt-agrees-with-posix',
+               'the bundled getopt (builds without <getopt.h>) parses command lines differently from POSIX getopt: %s - the option combination '
+               'the translator runs with is not the one the user wrote, so the same command line gives different output in the two build '
+               'configurations' % '; '.join(bad[:2]), 'getopt_impl.h:getopt',
+               detail_ok='%d command lines over %d words: same (option, argument) sequence and final optind as POSIX getopt' % (n, len(words)))
+
+
+
 def check_worker_resources(chk, tu):
     """the workers run the same recursive writers as the sequential path, on modules of any nesting depth: they are created with
     default thread attributes (no reduced stack), so that what translates with -f 0 also translates when a worker writes it"""
@@ -1011,6 +1170,8 @@ def run(chk):
     c06.check_data_modes(chk, tus, 'R09.6')
     check_worker_call(chk, tu)
     check_worker_resources(chk, tu)
+    check_bundled_getopt(chk, chk.tier)
+    chk.floor('R09.9', 1)
     c10.check_name_dedup(chk, chk.tier, rule='R09.8')
     check_whole_outputs(chk, chk.tier)
     chk.extra['template_pairs'] = n_t
